@@ -1,5 +1,202 @@
 import Rivaas.Proto
-/- Driver for C06 (stub: not built yet) -/
-def main : IO UInt32 := do
-  IO.eprintln "driver for C06 is not built yet"
-  return 2
+import Rivaas.Spec.ErrFmt
+/-
+Driver for C06.
+
+Fail case:
+  <id> A <r|s> <path> <stText: n (<nat> <str>)…> <opts: n opt…> <accept: 0 | 1 str> <answers: n str…>
+       <pos> <call> => R <status> <ctype> <bodies: n json…> <aborted> <entered: n nat…> | P
+MarshalJSON case:
+  <id> M <type> <title> <status> <detail> <instance> <ext: n (<str> json)…> => R json | E | P
+
+  opt  ::= F fmt | M <n> (<str> fmt)… | D <str>
+  fmt  ::= <r|j|s> <baseURL> <disableID> <statusRes: 0 | 1 nat> <typeRes: 0 | 1 str>
+  call ::= C err | S <nat> <0 | 1 err> | H <helper 0..9> <0 | 1 err>
+  err  ::= N <st: 0 | 1 nat> <code: 0 | 1 str> <det: 0 | 1 json> msg <n> err…
+  msg  ::= O <str> | P <str> | J | I | T <nat>
+  json ::= z | t | f | n <str> | s <str> | a <n> json… | o <n> (<str> json)…
+-/
+namespace Rivaas.DriverC06
+open Rivaas.Proto Rivaas.ErrFmt
+
+def pJson : Nat → P Json
+  | 0 => failure
+  | fuel+1 => do
+    let k ← tok
+    if k == "z" then pure .null
+    else if k == "t" then pure (.bool true)
+    else if k == "f" then pure (.bool false)
+    else if k == "n" then Json.num <$> str
+    else if k == "s" then Json.str <$> str
+    else if k == "a" then Json.arr <$> list (pJson fuel)
+    else if k == "o" then Json.obj <$> list (do let key ← str; let v ← pJson fuel; pure (key, v))
+    else failure
+
+def pMsg : P Msg := do
+  let k ← tok
+  if k == "O" then Msg.own <$> str
+  else if k == "P" then Msg.prefixed <$> str
+  else if k == "J" then pure .joined
+  else if k == "I" then pure .inherit
+  else if k == "T" then Msg.statusText <$> nat
+  else failure
+
+def pErr : Nat → P Err
+  | 0 => failure
+  | fuel+1 => do
+    lit "N"
+    let st ← opt nat
+    let code ← opt str
+    let det ← opt (pJson fuel)
+    let m ← pMsg
+    let kids ← list (pErr fuel)
+    pure (.node { st := st, code := code, det := det } m kids)
+
+def pKind : P FKind := do
+  let k ← tok
+  if k == "r" then pure .rfc9457 else if k == "j" then pure .jsonapi else if k == "s" then pure .simple else failure
+
+def pFmt : P Fmt := do
+  let kind ← pKind
+  let base ← str
+  let dis ← bool
+  let sr ← opt nat
+  let tr ← opt str
+  pure { kind := kind, baseURL := base, disableID := dis, statusRes := sr, typeRes := tr }
+
+def pOpt : P Opt := do
+  let k ← tok
+  if k == "F" then Opt.formatter <$> pFmt
+  else if k == "M" then Opt.formatters <$> list (do let mt ← str; let f ← pFmt; pure (mt, f))
+  else if k == "D" then Opt.defaultFormat <$> str
+  else failure
+
+def helperOf : Nat → Option Helper
+  | 0 => some .notFound | 1 => some .badRequest | 2 => some .unauthorized | 3 => some .forbidden
+  | 4 => some .conflict | 5 => some .gone | 6 => some .unprocessable | 7 => some .tooMany
+  | 8 => some .internal | 9 => some .unavailable | _ => none
+
+def pCall (fuel : Nat) : P Call := do
+  let k ← tok
+  if k == "C" then Call.fail <$> pErr fuel
+  else if k == "S" then do
+    let s ← nat
+    let e ← opt (pErr fuel)
+    pure (.failStatus s e)
+  else if k == "H" then do
+    let i ← nat
+    let e ← opt (pErr fuel)
+    match helperOf i with
+    | some h => pure (.helper h e)
+    | none => failure
+  else failure
+
+structure ACase where
+  wire : Wire
+  path : Bytes
+  stTab : List (Nat × Bytes)
+  opts : List Opt
+  accept : Option Bytes
+  answers : List Bytes
+  pos : Nat
+  call : Call
+
+def pWire : P Wire := do
+  let k ← tok
+  if k == "r" then pure .recorder else if k == "s" then pure .server else failure
+
+def pACase (fuel : Nat) : P ACase := do
+  let w ← pWire
+  let path ← str
+  let tab ← list (do let n ← nat; let s ← str; pure (n, s))
+  let opts ← list pOpt
+  let accept ← opt str
+  let answers ← list str
+  let pos ← nat
+  let call ← pCall fuel
+  pure { wire := w, path := path, stTab := tab, opts := opts, accept := accept, answers := answers, pos := pos, call := call }
+
+def pResp (fuel : Nat) : P (Option Resp) := do
+  let k ← tok
+  if k == "R" then
+    let st ← nat
+    let ct ← str
+    let bodies ← list (pJson fuel)
+    let ab ← bool
+    let entered ← list nat
+    pure (some { status := st, contentType := ct, bodies := bodies, aborted := ab, entered := entered })
+  else if k == "P" then pure none
+  else failure
+
+def stTextOf (tab : List (Nat × Bytes)) (n : Nat) : Bytes :=
+  match tab.find? fun kv => kv.1 == n with
+  | some kv => kv.2
+  | none => []
+
+partial def encJson : Json → String
+  | .null => "z"
+  | .bool true => "t"
+  | .bool false => "f"
+  | .num t => "n " ++ encStr t
+  | .str s => "s " ++ encStr s
+  | .arr xs => "a " ++ toString xs.length ++ String.join (xs.map fun x => " " ++ encJson x)
+  | .obj kvs => "o " ++ toString kvs.length ++ String.join (kvs.map fun kv => " " ++ encStr kv.1 ++ " " ++ encJson kv.2)
+
+def encResp (r : Resp) : String :=
+  s!"R {r.status} {encStr r.contentType} {r.bodies.length}" ++ String.join (r.bodies.map fun b => " " ++ encJson b) ++
+  (if r.aborted then " 1 " else " 0 ") ++ toString r.entered.length ++ String.join (r.entered.map fun n => " " ++ toString n)
+
+def respEq (a b : Resp) : Bool :=
+  a.status == b.status && a.contentType == b.contentType && a.bodies == b.bodies && a.aborted == b.aborted && a.entered == b.entered
+
+def canonResp (r : Resp) : Resp := { r with bodies := r.bodies.map Json.canon }
+
+/-- the model's possible responses: one per answer `c.Accepts` can give (the order of the offers is
+    the iteration order of a Go map) -/
+def possible (c : ACase) : List Resp :=
+  let env : Env := { path := c.path, stText := stTextOf c.stTab }
+  let cfg := mkCfg c.opts
+  c.answers.map fun ans => canonResp (fail env cfg ans c.wire c.pos c.call)
+
+def stepA (id : String) (inp obs : List String) : String :=
+  match runP (pACase inp.length) inp, runP (pResp obs.length) obs with
+  | some c, some o =>
+    let ms := possible c
+    let mi := match o with
+      | some r => ms.any (respEq r)
+      | none => false
+    let s := match o with
+      | some r => specOK c.opts c.accept c.pos c.call r
+      | none => false
+    let d := if knownK06c c.wire c.opts c.accept c.call then "K06c" else "-"
+    verdict id mi s d (match ms with | m :: _ => encResp m | [] => "none")
+  | _, _ => s!"{id} bad-case"
+
+def stepM (id : String) (inp obs : List String) : String :=
+  let pIn : P Problem := do
+    let ty ← str; let ti ← str; let st ← nat; let de ← str; let ins ← str
+    let ext ← list (do let k ← str; let v ← pJson inp.length; pure (k, v))
+    pure { type := ty, title := ti, status := st, detail := de, instance_ := ins, extensions := ext }
+  let pOut : P (Option Json) := do
+    let k ← tok
+    if k == "R" then some <$> pJson obs.length else if k == "E" || k == "P" then pure none else failure
+  match runP pIn inp, runP pOut obs with
+  | some p, some o =>
+    let m := (marshalProblem p).canon
+    let mi := match o with | some b => b == m | none => false
+    let s := match o with | some b => marshalOK p b | none => false
+    verdict id mi s "-" ("R " ++ encJson m)
+  | _, _ => s!"{id} bad-case"
+
+def step (line : String) : String :=
+  match splitCase line with
+  | none => "? bad-line"
+  | some (id, inp, obs) =>
+    match inp with
+    | "A" :: rest => stepA id rest obs
+    | "M" :: rest => stepM id rest obs
+    | _ => s!"{id} bad-case"
+
+end Rivaas.DriverC06
+
+def main : IO UInt32 := Rivaas.Proto.driverMain Rivaas.DriverC06.step
